@@ -269,6 +269,35 @@ def run_format(signed, bits, frac, acc, floats=None):
                                    shape=list(shape)),
                               dict(fmt, shape=list(shape), array=True),
                               "shape %r: converter gives %r" % (shape, r))
+        # two conversions with one converter: an earlier result must not
+        # change (results are independent arrays)
+        half = len(fl) // 2
+        for shape_n in (1, 3, min(half, 50)):
+            a1 = np.array(fl[:shape_n], dtype=np.float64)
+            a2 = np.array(fl[-shape_n:], dtype=np.float64)
+            acc.evaluations += 1
+            try:
+                with warnings.catch_warnings():
+                    warnings.simplefilter("ignore")
+                    r1 = aconv(a1)
+                    keep = [int(v) for v in r1]
+                    r2 = aconv(a2)
+                    f1 = aback(r1)
+                    keepf = [float(v) for v in f1]
+                    f2 = aback(r2)
+                ok = ([int(v) for v in r1] == keep and
+                      [float(v) for v in f1] == keepf and
+                      [int(v) for v in r2] == refs[-shape_n:] and
+                      r1 is not r2)
+            except Exception as e:
+                ok = False
+            if not ok:
+                acc.violation(dict(kind="array_result_aliased", bits=bits),
+                              dict(fmt, array=True, twice=shape_n),
+                              "converting a second array of %d values "
+                              "changed the result of the first conversion"
+                              % shape_n)
+                break
         # array inverse on exactly representable levels
         lv = [k for k in sorted(set(refs)) if abs(k) < (1 << 53)]
         ia = np.array(lv, dtype=exp_dtype)
